@@ -17,7 +17,7 @@ from ..handlers import FnRef, concrete_handlers, implementations
 from ..pyfront import ClassInfo, Program, body_without_docstring, param_names, self_attr
 from ..guards import atoms
 from ..normalize import canon, flat
-from ..resolve import split_atom
+from ..resolve import Resolver, split_atom
 from ..selftest import Edit, Patch
 
 ID = "C05"
@@ -665,6 +665,88 @@ def check_antisymmetry(prog: Program, rep: Report) -> None:
                f"(net coefficients +1 and -1): the table the lifting scheme sees sums to zero only by this construction; found {bal}")
 
 
+def check_insertion_order(prog: Program, rep: Report) -> None:
+    """
+    R5.7: when the units of two composite objects are inserted into the lifting scheme, the order of the two groups in the
+    derivative table must not depend on which of them contains the active unit (inside-first and outside-first lifting read the
+    table by position: the same physical pair must produce the same layout whichever of its units is active).  Necessary
+    structure: both orders of the two groups occur, selected by a comparison between identifiers of the two groups.
+    """
+    n = 0
+    for mi, ci, fn0 in prog.functions():
+        if ci is None or not prog.is_subclass(ci, "EventHandler"):
+            continue
+        fn = canon(prog, ci, fn0, helpers=False)
+
+        def groups_of(it: ast.AST) -> List[str]:
+            """the unit sequences a loop runs over, in order"""
+            if isinstance(it, ast.Call) and norm(it.func) in ("chain", "itertools.chain"):
+                out: List[str] = []
+                for a in it.args:
+                    out += groups_of(a)
+                return out
+            if isinstance(it, ast.Call) and norm(it.func) in ("enumerate", "zip", "list", "tuple", "reversed", "iter"):
+                return [norm(it)]
+            return [norm(it)]
+        inserts = []
+        for lp in ast.walk(fn):
+            if isinstance(lp, ast.For):
+                for c in ast.walk(lp):
+                    if isinstance(c, ast.Call) and isinstance(c.func, ast.Attribute) and c.func.attr == "insert" and self_attr(c.func.value) \
+                            and len(c.args) == 3 and not any(isinstance(l2, ast.For) and l2 is not lp and any(x is c for x in ast.walk(l2))
+                                                              for l2 in ast.walk(lp)):
+                        inserts.append((lp, c))
+        if not inserts:
+            continue
+        loop_groups = {id(lp): groups_of(lp.iter) for lp, _ in inserts}
+        all_groups = {g for gs in loop_groups.values() for g in gs}
+        if len(all_groups) < 2:
+            continue
+        n += 1
+
+        RO = Resolver(fn)
+
+        def walk_paths(stmts: List[ast.stmt], assumed: Dict[str, bool], acc: Tuple[str, ...]):
+            """yield (order of groups, assumptions) for every feasible path; equal tests get equal outcomes along a path"""
+            if not stmts:
+                yield acc, assumed
+                return
+            st, rest = stmts[0], stmts[1:]
+            if isinstance(st, ast.If):
+                pos, neg = atoms(RO.res(st.test)), atoms(RO.res(st.test), False)
+                key, nkey = " and ".join(pos), " and ".join(neg)
+                if not any(id(lp) in loop_groups for lp in ast.walk(st) if isinstance(lp, ast.For)):
+                    yield from walk_paths(rest, assumed, acc)
+                    return
+                if key in assumed or nkey in assumed:
+                    truth = assumed[key] if key in assumed else not assumed[nkey]
+                    yield from walk_paths((st.body if truth else st.orelse) + rest, assumed, acc)
+                else:
+                    for truth in (True, False):
+                        yield from walk_paths((st.body if truth else st.orelse) + rest, {**assumed, key: truth}, acc)
+                return
+            if isinstance(st, ast.For) and id(st) in loop_groups:
+                yield from walk_paths(rest, assumed, acc + tuple(loop_groups[id(st)]))
+                return
+            inner: List[ast.stmt] = []
+            for fld in ("body", "orelse", "finalbody"):
+                b_ = getattr(st, fld, None)
+                if isinstance(b_, list) and b_ and isinstance(b_[0], ast.stmt):
+                    inner += b_
+            yield from walk_paths(inner + rest, assumed, acc)
+        found = [(o, tuple(a)) for o, a in walk_paths(body_without_docstring(fn), {}, ()) if o]
+        distinct = {p[0] for p in found}
+        tests = {t for p in found for t in p[1]}
+        symmetric = len(distinct) >= 2 and any(tuple(reversed(o)) in distinct for o in distinct) \
+            and any(t.count(".identifier") >= 2 for t in tests)
+        rep.ob("R5.7-table-order-independent-of-active-unit", symmetric, Loc(mi.file, fn.lineno, f"{ci.name}.{fn.name}"),
+               f"{ci.name}.{fn.name}: insertion orders {sorted(distinct)}",
+               "the units of two composite objects are inserted into the lifting scheme in an order that does not follow from a "
+               "comparison of their identifiers (both orders, chosen by identifier): the layout of the derivative table then depends on "
+               "which unit is active and the inside-first / outside-first flows no longer balance")
+    rep.unit("two_group_insertion_routines", n)
+
+
 def check_purity(prog: Program, rep: Report, roles: LiftRoles) -> None:
     for c in roles.schemes + [roles.base]:
         fn = roles.method(c, "get_active_identifier")
@@ -703,6 +785,7 @@ def analyse(src: Source) -> List[Report]:
     check_selection(prog, rep, roles)
     check_use_sites(prog, rep)
     check_antisymmetry(prog, rep)
+    check_insertion_order(prog, rep)
     check_purity(prog, rep, roles)
     rep.expect_min("R5.1-insert-effects", 6)
     rep.expect_min("R5.2-lock-step", 4)
@@ -710,6 +793,7 @@ def analyse(src: Source) -> List[Report]:
     rep.expect_min("R5.4-reset-before-insert", 3)
     rep.expect_min("R5.4-insert-before-get", 3)
     rep.expect_min("R5.5-antisymmetric-table", 4)
+    rep.expect_min("R5.7-table-order-independent-of-active-unit", 1)
     return [rep]
 
 
